@@ -1546,7 +1546,7 @@ def check_operand_multiset(ctx: Check, tree: Tree) -> None:
             raise AnalysisError(f"vanished anchor: {cls_name}._numpycode")
         work.append((fn, {}))
     results, seen, _ = multiset_scan(tree, work, {"self.args": M_POOL, "self._args": M_POOL}, None)
-    if len(seen) < 2:
+    if len(work) < 2 or not seen:  # both printers resolved (they may be one shared method)
         raise AnalysisError("R-OPERANDS: fewer than the two confirmed printer methods were read")
     for fn, findings, counting in results:
         if findings and counting:
